@@ -26,15 +26,22 @@ def sig(c, r):
             "what": (r.get("why") or "").split(":")[1].strip().split(" ")[0] if ":" in (r.get("why") or "") else ""}
 
 
+SQ = "{data}/unit-square-quad.xml"
+# (reference group, label, arguments, process counts); the reference of a group is its run with label == group on 1 process
 APP_ARGS_QUICK = [
-    ("sq-5-2", ["--mesh", "{data}/unit-square-quad.xml", "--level", "5", "2", "--problem", "sin"], [1, 2, 3, 4, 6, 8]),
-    ("sq-ml", ["--mesh", "{data}/unit-square-quad.xml", "--level", "5", "3:2", "2", "--problem", "sin"], [4, 6]),
-    ("lshape-3-1", ["--mesh", "{data}/l-shape-quad.xml", "--level", "3", "1", "--problem", "exp"], [1, 2, 3, 5]),
+    ("sq-5-2", "sq-5-2", ["--mesh", SQ, "--level", "5", "2", "--problem", "sin"], [1, 2, 3, 4, 6, 8]),
+    ("sq-5-2", "sq-5-2 layers 5:n 3:2 2", ["--mesh", SQ, "--level", "5", "3:2", "2", "--problem", "sin"], [4, 6]),
+    ("sq-4-1", "sq-4-1", ["--mesh", SQ, "--level", "4", "1", "--problem", "sin"], [1]),
+    ("sq-4-1", "sq-4-1 layers 4:8 2:2 1", ["--mesh", SQ, "--level", "4", "2:2", "1", "--problem", "sin"], [8]),
+    ("lshape-3-1", "lshape-3-1", ["--mesh", "{data}/l-shape-quad.xml", "--level", "3", "1", "--problem", "exp"], [1, 2, 3, 5]),
 ]
 APP_ARGS_THOROUGH = APP_ARGS_QUICK + [
-    ("sq-6-2", ["--mesh", "{data}/unit-square-quad.xml", "--level", "6", "2", "--problem", "sin"], [1, 5, 7, 12, 16]),
-    ("flow-3-0", ["--mesh", "{data}/flowbench_c2d_03_quad_64.xml", "--level", "2", "0", "--problem", "cos"], [1, 2, 4, 7]),
-    ("sq-ml2", ["--mesh", "{data}/unit-square-quad.xml", "--level", "6", "4:4", "2", "--problem", "sin"], [16, 8, 12]),
+    ("sq-6-2", "sq-6-2", ["--mesh", SQ, "--level", "6", "2", "--problem", "sin"], [1, 5, 7, 12, 16]),
+    ("sq-6-2", "sq-6-2 layers 6:n 4:4 2", ["--mesh", SQ, "--level", "6", "4:4", "2", "--problem", "sin"], [16, 8, 12]),
+    ("sq-5-2", "sq-5-2 layers 5:16 3:4 2", ["--mesh", SQ, "--level", "5", "3:4", "2", "--problem", "sin"], [16]),
+    ("sq-4-0", "sq-4-0", ["--mesh", SQ, "--level", "4", "0", "--problem", "sin"], [1]),
+    ("sq-4-0", "sq-4-0 layers 4:16 2:4 1:1 0", ["--mesh", SQ, "--level", "4", "2:4", "1:1", "0", "--problem", "sin"], [16]),
+    ("flow-2-0", "flow-2-0", ["--mesh", "{data}/flowbench_c2d_03_quad_64.xml", "--level", "2", "0", "--problem", "cos"], [1, 2, 4, 7]),
 ]
 
 
@@ -51,12 +58,10 @@ def app_runs(chk, app):
     import subprocess
     plan = APP_ARGS_THOROUGH if chk.tier == "thorough" else APP_ARGS_QUICK
     data = os.path.join(vlib.REPO, "data", "meshes")
-    runs = []
     jobs = []
-    for group, args, nps in plan:
-        base = group.split("-ml")[0] + ("-5-2" if group == "sq-ml" else "-6-2" if group == "sq-ml2" else "")
+    for group, label, args, nps in plan:
         for n in nps:
-            jobs.append((base if "-ml" in group else group, group, [a.format(data=data) for a in args], n))
+            jobs.append((group, label, [a.format(data=data) for a in args], n))
 
     def one(job):
         g, label, args, n = job
